@@ -472,6 +472,11 @@ fn damage(root: &Path, step: &Value) -> Value {
         match kind {
             "delete" => std::fs::remove_file(&path)?,
             "trunc0" => std::fs::write(&path, b"")?,
+            "trunc0_if_exists" => {
+                if path.is_file() {
+                    std::fs::write(&path, b"")?
+                }
+            }
             "trunchalf" => {
                 let d = std::fs::read(&path)?;
                 std::fs::write(&path, &d[..d.len() / 2])?
